@@ -46,6 +46,8 @@ type c02Case struct {
 	// Admit: every tx object first goes through mempool admission (PreExecutor) against a state
 	// with other unit prices, as txs admitted before the fee market moved do
 	Admit bool `json:",omitempty"`
+	// SlowLog: the builder's Debug logging takes ~300us (see slowLogger)
+	SlowLog bool `json:",omitempty"`
 }
 
 // bulkTx is the i-th extra tx: one action touching one or two universe keys.
@@ -95,6 +97,33 @@ func c02Gen(rt *rapid.T) c02Case {
 	c.VerifyCfg = fixture.ExecConfig{Cores: rapid.SampledFrom([]int{1, 4}).Draw(rt, "vcores"), Fetch: rapid.SampledFrom([]int{1, 4}).Draw(rt, "vfetch")}
 	nb := rapid.IntRange(1, 3).Draw(rt, "nbuilds")
 	c.Accept = rapid.IntRange(0, nb-1).Draw(rt, "accept")
+	if rapid.IntRange(0, 9).Draw(rt, "fullrace") == 0 {
+		// "block fills up while fitting and non-fitting txs execute concurrently": compute limit M with
+		// window target M/2, one tx that takes the block above the target, then several pairs of a tx
+		// that no longer fits and a small one that does, all from different sponsors on disjoint keys
+		m := rapid.SampledFrom([]uint64{60, 100, 200}).Draw(rt, "frM")
+		c.Rules.BaseCompute = 1
+		c.Rules.MaxBlockUnits = [5]uint64{1 << 40, m, 1 << 40, 1 << 40, 1 << 40}
+		t := [5]uint64{20_000_000, m / 2, 1000000, 1000000, 1000000}
+		c.Rules.WindowTarget = &t
+		c.Cores = rapid.SampledFrom([]int{2, 4, 8}).Draw(rt, "frCores")
+		c.TargetSz = 1 << 20
+		c.SlowLog = true
+		mk := func(i int, compute uint64) c02Tx {
+			k := universe[i%len(universe)]
+			return c02Tx{RepeatOf: -1, Kind: "fullrace", OffS: 30, Spec: fixture.TxSpec{Sponsor: i % 3, AuthStart: -1, AuthEnd: -1, MaxFee: uint64(5000 + i),
+				Actions: []fixture.ActSpec{{Start: -1, End: -1, Nonce: uint64(7_000_000 + i), Compute: compute,
+					Keys: []fixture.KeyDecl{{Key: k, Perm: 7}}, Ops: []fixture.Op{{Kind: fixture.OpGet, Key: k}, {Kind: fixture.OpYield, Val: []byte{20}}}}}}}
+		}
+		arr := []c02Tx{mk(0, m*6/10)}
+		np := rapid.IntRange(1, 4).Draw(rt, "frPairs")
+		for p := 0; p < np; p++ {
+			arr = append(arr, mk(1+2*p, m/2), mk(2+2*p, rapid.SampledFrom([]uint64{0, 1, 3}).Draw(rt, fmt.Sprintf("frSmall%d", p))))
+		}
+		c.Builds = [][]c02Tx{arr}
+		c.Accept = 0
+		return c
+	}
 	if rapid.IntRange(0, 24).Draw(rt, "bulk") == 0 {
 		c.Bulk = rapid.SampledFrom([]int{130, 257, 300, 520, 700}).Draw(rt, "bulkN")
 		if rapid.Bool().Draw(rt, "bulkTight") {
@@ -103,6 +132,7 @@ func c02Gen(rt *rapid.T) c02Case {
 		}
 	}
 	c.Admit = rapid.Bool().Draw(rt, "admit")
+	c.SlowLog = rapid.IntRange(0, 2).Draw(rt, "slowlog") == 0
 	total := 0
 	for b := 0; b < nb; b++ {
 		n := rapid.IntRange(0, 10).Draw(rt, fmt.Sprintf("n%d", b))
@@ -239,6 +269,10 @@ func c02Run(c c02Case, st *vstat.Stats) error {
 			}
 		}
 		b := l.builder(vwBuilder, c.Cores, c.TargetSz)
+		if c.SlowLog {
+			b = l.builderWith(vwBuilder, c.Cores, c.TargetSz, slowLogger{})
+			labels["slow-builder-log"] = true
+		}
 		blk, out, berr := b.BuildBlock(ctx, &block.Context{}, parentOut)
 		finished := l.waitFinish(60 * time.Second)
 		if !finished {
